@@ -53,7 +53,7 @@ func genKV(r *gen.Rand, keys, vals []string, max int) []entry {
 	return es
 }
 
-func genAsm(r *gen.Rand, i int) *asmCase {
+func genAsm(r *gen.Rand, i int, thorough bool) *asmCase {
 	a := &asmCase{bodyKind: "none"}
 	a.base = gen.Pick(r, bases)
 	a.url = gen.Pick(r, templates)
@@ -111,7 +111,7 @@ func genAsm(r *gen.Rand, i int) *asmCase {
 		a.method = "POST"
 	}
 	// timeout precedence: a few real-time cases with wide margins (30 ms vs 250 ms vs 5 s)
-	if i%45 == 7 {
+	if (!thorough && i%45 == 7) || (thorough && i%220 == 7) {
 		a.delay = 250
 		t := gen.Pick(r, [][2]int{{0, 30}, {30, 0}, {30, 5000}, {5000, 30}, {5000, 0}, {0, 5000}, {30, 30}})
 		a.cTO, a.rTO = t[0], t[1]
@@ -139,47 +139,76 @@ func genExp(r *gen.Rand) string {
 	}
 }
 
-func genJar(r *gen.Rand) []jarOp {
+// genJar draws a history. Path vocabulary by mode: 0 = cookies without a path or with "/" (the path test
+// cannot matter), 1 = cookie and request paths from a set in which none is a proper prefix of another
+// (both path tests agree), 2 = the full mix (K1 region likely). timed: one `s` cookie phase, a W, lookups.
+func genJar(r *gen.Rand, timed bool) []jarOp {
 	var ops []jarOp
 	n := 3 + r.Intn(10)
 	val := func() string { return gen.Pick(r, []string{"v1", "v2", "v3", "x", ""}) + gen.I(r.Intn(10)) }
+	cPaths, rPaths := jarPaths, reqPaths
+	switch mode := r.Intn(20); {
+	case mode < 7:
+		cPaths = []string{"", "/", "", "/"}
+	case mode < 12:
+		cPaths = []string{"/a", "/b", "/ab", "/c/d", "", "/"}
+		rPaths = []string{"/a", "/b", "/ab", "/c/d", "/x"}
+	}
 	// concentrate on few hosts so that histories interact
 	hosts := []string{gen.Pick(r, jarHosts), gen.Pick(r, jarHosts)}
 	if r.Chance(1, 3) {
 		hosts = append(hosts, gen.Pick(r, jarHosts))
 	}
+	exp := func(direct bool) string {
+		if timed && direct && r.Chance(1, 2) {
+			return "s"
+		}
+		return genExp(r)
+	}
+	wAt := -1
+	if timed {
+		wAt = n/2 + r.Intn(2)
+	}
+	if timed {
+		// a short-lived cookie that is certainly seen alive before and gone after the wait
+		ops = append(ops, jarOp{'S', []string{hx(hosts[0]), hx("tmp"), hx(val()), hx(gen.Pick(r, []string{"", "/"})), "s"}},
+			jarOp{'G', []string{hx(hosts[0]), hx("/")}})
+	}
 	for i := 0; i < n; i++ {
+		if i == wAt {
+			ops = append(ops, jarOp{'W', nil}, jarOp{'G', []string{hx(hosts[0]), hx("/")}})
+		}
 		h := gen.Pick(r, hosts)
 		switch r.Intn(12) {
 		case 0, 1, 2:
-			ops = append(ops, jarOp{'S', []string{hx(h), hx(gen.Pick(r, jarNames)), hx(val()), hx(gen.Pick(r, jarPaths)), genExp(r)}})
+			ops = append(ops, jarOp{'S', []string{hx(h), hx(gen.Pick(r, jarNames)), hx(val()), hx(gen.Pick(r, cPaths)), exp(i < wAt)}})
 		case 3:
 			ops = append(ops, jarOp{'K', []string{hx(h), hx(gen.Pick(r, jarNames)), hx(val())}})
 		case 4, 5, 6:
 			var cs []string
 			for k := r.Intn(3); k > 0; k-- {
-				cs = append(cs, hx(gen.Pick(r, jarNames))+"~"+hx(val())+"~"+hx(gen.Pick(r, jarPaths))+"~"+genExp(r))
+				cs = append(cs, hx(gen.Pick(r, jarNames))+"~"+hx(val())+"~"+hx(gen.Pick(r, cPaths))+"~"+genExp(r))
 			}
 			c := "-"
 			if len(cs) > 0 {
 				c = strings.Join(cs, "+")
 			}
-			ops = append(ops, jarOp{'R', []string{hx(h), hx(gen.Pick(r, reqPaths)), c}})
+			ops = append(ops, jarOp{'R', []string{hx(h), hx(gen.Pick(r, rPaths)), c}})
 		case 7, 8, 9:
-			ops = append(ops, jarOp{'G', []string{hx(h), hx(gen.Pick(r, reqPaths))}})
+			ops = append(ops, jarOp{'G', []string{hx(h), hx(gen.Pick(r, rPaths))}})
 		case 10:
-			ops = append(ops, jarOp{'X', []string{hx(h), hx(gen.Pick(r, reqPaths))}})
+			ops = append(ops, jarOp{'X', []string{hx(h), hx(gen.Pick(r, rPaths))}})
 		default:
 			if r.Chance(1, 3) {
 				ops = append(ops, jarOp{'L', nil})
 			} else {
-				ops = append(ops, jarOp{'G', []string{hx(h), hx(gen.Pick(r, reqPaths))}})
+				ops = append(ops, jarOp{'G', []string{hx(h), hx(gen.Pick(r, rPaths))}})
 			}
 		}
 	}
 	// always end by looking at every host
 	for _, h := range hosts {
-		ops = append(ops, jarOp{'G', []string{hx(h), hx(gen.Pick(r, reqPaths))}})
+		ops = append(ops, jarOp{'G', []string{hx(h), hx(gen.Pick(r, rPaths))}})
 	}
 	return ops
 }
